@@ -34,6 +34,7 @@ def cases(tier):
     for it in range(3):
         for mk in range(3):
             out.append({"name": "evaluator_input%d_matcher%d" % (it, mk), "what": "evaluator", "it": it, "mk": mk})
+    out.append({"name": "evaluator_used_then_saved", "what": "used", "it": 0, "mk": 1})
     for comp in ("naive", "merge", "cca", "handler", "zerotp", "labelgroup", "mergegroup", "classgroups", "enums"):
         out.append({"name": "component_" + comp, "what": comp})
     return out
@@ -243,6 +244,37 @@ def run_case(case):
         return d
     h = H(PROP, case["name"], decode, replay_kind="roundtrip", max_witnesses=30)
 
+    def body_used():
+        """semantic evaluator, default back end, evaluated on a 3-D or a 2-D input (solver's choice) before it is saved"""
+        from ..symnp import SArr
+        fs.__init__()
+        fs.dirs.add("/cfg")
+        ch = Chooser()
+        holder["ch"] = ch
+
+        def mk():
+            return ns.Panoptica_Evaluator(expected_input=ns.InputType.SEMANTIC, instance_approximator=ns.ConnectedComponentsInstanceApproximator(), instance_matcher=ns.NaiveThresholdMatching())
+        three_d = ch.choice("used_on_3d", 2)
+        x, fresh = mk(), mk()
+        try:
+            shp = (1, 2, 2) if three_d else (2, 2)
+            x.evaluate(SArr([1, 0, 0, 1], "uint8", shp), SArr([1, 0, 0, 1], "uint8", shp), verbose=False)
+            x.save_to_config("/cfg/used.yaml")
+            fresh.save_to_config("/cfg/fresh.yaml")
+            y = type(x).load_from_config("/cfg/used.yaml")
+        except EngineSignal:
+            raise
+        except Exception as e:
+            h.fail("save_and_load_complete", detail="%s: %s" % (type(e).__name__, str(e)[:160]))
+            return
+        ne = yamlmodel.node_equal(fs.files["/cfg/used.yaml"][0], fs.files["/cfg/fresh.yaml"][0])
+        h.ok("use_does_not_change_the_saved_configuration", False if ne is False else z3.And(ne + [z3.BoolVal(True)]), detail={"used_on_3d": bool(three_d)})
+        eqs, why = state_same(fresh, y)
+        h.ok("loaded_object_has_identical_settings", False if eqs is None else z3.And(eqs + [z3.BoolVal(True)]), detail=why)
+        h.note_nontrivial(("used", three_d))
+        h.note_nontrivial("used_then_saved")
+        h.witness(expect=None)
+
     def body():
         fs.__init__()
         fs.dirs.add("/cfg")
@@ -269,7 +301,7 @@ def run_case(case):
         ne = yamlmodel.node_equal(fs.files["/cfg/a.yaml"][0], fs.files["/cfg/b.yaml"][0])
         h.ok("resaving_reproduces_the_file", False if ne is False else z3.And(ne + [z3.BoolVal(True)]))
         h.witness(expect=None)
-    return explore_case(h, body, time_budget=3000)
+    return explore_case(h, body_used if what == "used" else body, concretize_div=64, time_budget=3000)
 
 
 # ================================================================================================ real-package side
@@ -294,6 +326,8 @@ def real_roundtrip(case, mode, expect):
     import numpy as np
     ns = real_namespace()
     what = case["what"]
+    if what == "used":
+        return _real_used(ns, case)
     try:
         x = build(ns, RealChooser(case), what, case)
     except AssertionError:
@@ -345,6 +379,32 @@ def real_roundtrip(case, mode, expect):
     finally:
         shutil.rmtree(tmp, ignore_errors=True)
     return {"match": True, "violates": bad is not None, "reason": bad, "observed": None}
+
+
+def _real_used(ns, case):
+    import os
+    import shutil
+    import tempfile
+    import numpy as np
+    from . import realcommon as RC
+    RC.use_serial_pool(True)
+
+    def mk():
+        return ns.Panoptica_Evaluator(expected_input=ns.InputType.SEMANTIC, instance_approximator=ns.ConnectedComponentsInstanceApproximator(), instance_matcher=ns.NaiveThresholdMatching())
+    tmp = tempfile.mkdtemp(prefix="pv_c19u_")
+    try:
+        x, fresh = mk(), mk()
+        a = np.array([1, 0, 0, 1], dtype=np.uint8).reshape((1, 2, 2) if case["ints"].get("used_on_3d") else (2, 2))
+        x.evaluate(a.copy(), a.copy(), verbose=False)
+        pu, pf = os.path.join(tmp, "used.yaml"), os.path.join(tmp, "fresh.yaml")
+        x.save_to_config(pu)
+        fresh.save_to_config(pf)
+        bad = None
+        if open(pu).read() != open(pf).read():
+            bad = "use_does_not_change_the_saved_configuration: after one evaluation the evaluator saves\n%s\ninstead of\n%s" % (open(pu).read()[:300], open(pf).read()[:300])
+        return {"match": True, "violates": bad is not None, "reason": bad, "observed": None}
+    finally:
+        shutil.rmtree(tmp, ignore_errors=True)
 
 
 REAL = {"roundtrip": real_roundtrip}
